@@ -21,13 +21,13 @@ def stats(suffix):
     missed = sum(1 for m in ms if m.get('detection', '').startswith(('MISSED', 'NOT DETECTED', 'NOT JUDGED')))
     return len(ms), missed
 out = ["## Seeded changes and the checks that catch them\n\n",
- f"{len(rows)} changes written by independent sub-agents (rounds of twenty - one per property and round; from the fifth round on each agent was asked for two changes, kept as `-e`/`-f`, `-g`/`-h`, `-i`/`-j`, `-k`/`-l`, `-m`/`-n`, `-o`/`-p`, `-q`/`-r`, `-s`/`-t`;\n"
+ f"{len(rows)} changes written by independent sub-agents (rounds of twenty - one per property and round; from the fifth round on each agent was asked for two changes, kept as `-e`/`-f`, `-g`/`-h`, `-i`/`-j`, `-k`/`-l`, `-m`/`-n`, `-o`/`-p`, `-q`/`-r`, `-s`/`-t`; a last short round `-u` asked five agents (C12, C13, C15, C16, C18) for one change each under a 9-minute limit;\n"
  "later rounds were asked for deep triggers and for a mechanism different from the earlier ones).\n"
  "All were confirmed (`tools/seeded.sh verify`) to compile, to pass the repository's 82 unit tests and\n"
  "doc tests, and to fail their author's demonstration. \"own check\" is the quick check of the property\n"
  "the change was written against; \"all quick checks that alarm\" comes from `tools/seeded_matrix.sh`\n"
  "(`seeded/matrix.tsv`) where it has been run.\n\n"
- + "".join(f"Round `{sfx}`: {stats(sfx)[0]} changes, {stats(sfx)[0] - stats(sfx)[1]} caught as built, {stats(sfx)[1]} missed at first.\n" for sfx in ['-a', '-b', '-c', '-d', '-e', '-f', '-g', '-h', '-i', '-j', '-k', '-l', '-m', '-n', '-o', '-p', '-q', '-r', '-s', '-t'] if stats(sfx)[0])
+ + "".join(f"Round `{sfx}`: {stats(sfx)[0]} changes, {stats(sfx)[0] - stats(sfx)[1]} caught as built, {stats(sfx)[1]} missed at first.\n" for sfx in ['-a', '-b', '-c', '-d', '-e', '-f', '-g', '-h', '-i', '-j', '-k', '-l', '-m', '-n', '-o', '-p', '-q', '-r', '-s', '-t', '-u'] if stats(sfx)[0])
  + "\nEach miss led to a widening of a check's domain or oracle (never to a special case for the seeded\n"
  "input), after which the change is caught and the unchanged tree is still silent. Exceptions, all recorded\n"
  "in the table: changes that really break another property than the one their author was given are caught\n"
